@@ -227,5 +227,141 @@ def readAlias [Zero K] [Add K] [Mul K] [DecidableEq K] (m : Mirror K) : Mirror K
 
 end Old
 
+/-! ### Bad: a surface that is *updated* instead of recomputed (seeded regression C14-9)
+
+`surface += IF[changed] · (actuators − cached)[changed]` whenever at most one actuator in `ratio`
+differs from the vector the cached surface belongs to.  Over an exact ring this is the same array as
+`IF · actuators` — which is why a model over `ℚ` alone cannot tell it from `read`.  Over a scalar
+domain with a non-number (`Ext`, below: `nan − x = nan`, as IEEE NaN, and as `inf − inf`) the
+surface keeps the `nan` after the actuator has been set back: the surface depends on the history.
+Kept for its counterexample (`Properties/C14.lean`, `bad_incremental_not_history_free`). -/
+namespace Bad
+
+/-- number of positions in which two vectors differ -/
+def nchanged [DecidableEq K] (a c : List K) : Nat :=
+  ((List.zipWith (fun x y => decide (x ≠ y)) a c).filter id).length
+
+def readIncremental [Zero K] [Add K] [Sub K] [Mul K] [DecidableEq K] (ratio : Nat) (m : Mirror K) :
+    Mirror K × List K :=
+  match m.cached with
+  | some c =>
+    if c = acts m then handCopy m
+    else if c.length = (acts m).length ∧ nchanged (acts m) c * ratio ≤ c.length then
+      handCopy { m with
+        sheap := m.sheap ++ [List.zipWith (· + ·) (surface m)
+                  (matvec m.infl (List.zipWith (· - ·) (acts m) c))],
+        surf := m.sheap.length, cached := some (acts m), cachedRef := some m.cur }
+    else handCopy (recompute m)
+  | none => handCopy (recompute m)
+
+end Bad
+
+/-! ### Segment actuators (`SegmentedDeformableMirror.set_segment_actuators / get_segment_actuators`)
+
+The actuator vector of a segmented mirror of `nseg` segments is `[pistons…, tips…, tilts…]`;
+`set_segment_actuators(id, p, t, tl)` is three in-place item assignments on the array the mirror
+currently holds, `get_segment_actuators(id)` three item reads. -/
+
+def setSegment [Zero K] [Add K] [Mul K] [DecidableEq K] (m : Mirror K) (nseg id : Nat) (p t tl : K) :
+    Mirror K :=
+  (step (step (step m (.edit m.cur id p)).1 (.edit m.cur (id + nseg) t)).1
+    (.edit m.cur (id + 2 * nseg) tl)).1
+
+def getSegment [Zero K] (m : Mirror K) (nseg id : Nat) : K × K × K :=
+  ((acts m).getD id 0, (acts m).getD (id + nseg) 0, (acts m).getD (id + 2 * nseg) 0)
+
+/-! ### The influence functions of a segmented mirror (`SegmentedDeformableMirror.segments.setter`)
+
+For every segment `s` (one value per grid point) the tip mode is `s·x − β·s` with
+`β = (mean(s·x·s) − mean(s)·mean(s·x)) / (mean(s²) − mean(s)²)` (no subtraction when the
+denominator is zero), the tilt mode the same with `y`; the influence functions are
+`segments + tip + tilt`: the columns `[s₀ … | tip₀ … | tilt₀ …]`. -/
+
+/-- `np.mean(v)` -/
+def mean [Zero K] [Add K] [Div K] [NatCast K] (v : List K) : K := v.sum / (v.length : K)
+
+/-- the tip (`c = grid.x`) or tilt (`c = grid.y`) mode of one segment `s` -/
+def tiltMode [Zero K] [Add K] [Sub K] [Mul K] [Div K] [NatCast K] [DecidableEq K] (s c : List K) :
+    List K :=
+  let ms := mean s
+  let norm := mean (s.map fun a => a * a) - ms * ms
+  let t := List.zipWith (· * ·) s c
+  if norm = 0 then t else
+  let β := (mean (List.zipWith (· * ·) t s) - ms * mean t) / norm
+  List.zipWith (fun ti si => ti - β * si) t s
+
+/-- the dense table (`npix` rows) of the influence functions built from the segments (given as
+columns) and the grid coordinates -/
+def segInfl [Zero K] [Add K] [Sub K] [Mul K] [Div K] [NatCast K] [DecidableEq K]
+    (segs : List (List K)) (xs ys : List K) : List (List K) :=
+  let cols := segs ++ segs.map (tiltMode · xs) ++ segs.map (tiltMode · ys)
+  (List.range xs.length).map fun i => cols.map fun c => c.getD i 0
+
+/-! ### Phase read-outs: `phase_for`, `forward`, `backward`
+
+`phase_for(λ) = 2 · surface · 2π/λ`, `forward: E ↦ E · exp(2i·k·surface)`, `backward: E ↦ E ·
+exp(−2i·k·surface)` with `k = 2π/λ`.  The transcendental factor is kept **formal**: a phase is
+stored as its exact coefficient `c`, standing for the angle `2π · c` (`c = 2·surface/λ` turns), and a
+field value as a pair `(E, c)` standing for `E · exp(2πi · c)`.  Multiplying by `exp(2πi·d)` adds `d`
+to the coefficient — that is all `forward`/`backward` do, so they are exact in this representation
+and the harness evaluates `E · exp(2πi·c)` in floating point only at the very end to compare it with
+the electric field the running code returns. -/
+
+/-- a field value `E · exp(2πi·turns)` -/
+structure PVal (K : Type) where
+  amp : K
+  turns : K
+deriving Repr, DecidableEq
+
+/-- `2 · surface / λ`, in turns: `phase_for(λ) = 2π · phaseTurns` -/
+def phaseTurns [Add K] [Div K] (wl : K) (s : List K) : List K := (double s).map (· / wl)
+
+/-- `E · exp(+2πi · d)` for every pixel -/
+def applyPhase [Add K] (e : List (PVal K)) (d : List K) : List (PVal K) :=
+  List.zipWith (fun x t => ⟨x.amp, x.turns + t⟩) e d
+
+/-- `E · exp(−2πi · d)` for every pixel -/
+def applyPhaseConj [Sub K] (e : List (PVal K)) (d : List K) : List (PVal K) :=
+  List.zipWith (fun x t => ⟨x.amp, x.turns - t⟩) e d
+
+/-- `DeformableMirror.phase_for(wavelength)` (in turns) on the cached mirror -/
+def readPhase [Zero K] [Add K] [Mul K] [Div K] [DecidableEq K] (wl : K) (m : Mirror K) :
+    Mirror K × List K := readOut (phaseTurns wl) m
+
+/-- `DeformableMirror.forward(wavefront)`: one evaluation of `surface`, the field multiplied by
+`exp(2ik·surface)` -/
+def forward [Zero K] [Add K] [Mul K] [Div K] [DecidableEq K] (wl : K) (e : List (PVal K))
+    (m : Mirror K) : Mirror K × List (PVal K) := readOut (fun s => applyPhase e (phaseTurns wl s)) m
+
+/-- `DeformableMirror.backward(wavefront)`: the conjugate phase -/
+def backward [Zero K] [Add K] [Sub K] [Mul K] [Div K] [DecidableEq K] (wl : K) (e : List (PVal K))
+    (m : Mirror K) : Mirror K × List (PVal K) :=
+  readOut (fun s => applyPhaseConj e (phaseTurns wl s)) m
+
+/-- power of a field in the formal representation: `|E · exp(2πi c)|² = |E|²` (`nsq` = squared modulus) -/
+def power [Zero K] [Add K] (nsq : K → K) (e : List (PVal K)) : K := (e.map fun x => nsq x.amp).sum
+
 end
+
+/-! ### A scalar domain with a non-number
+
+`Ext α` adds one absorbing element `nan` to `α` (`nan ∘ x = x ∘ nan = nan` for every operation) — the
+behaviour of IEEE NaN, and of `inf − inf`.  The mirror model needs no algebraic law, so every mirror
+theorem holds over `Ext α` as well. -/
+inductive Ext (α : Type) where
+  | fin (a : α)
+  | nan
+deriving DecidableEq, Repr
+
+namespace Ext
+variable {α : Type}
+def lift2 (f : α → α → α) : Ext α → Ext α → Ext α
+  | .fin a, .fin b => .fin (f a b)
+  | _, _ => .nan
+instance [Zero α] : Zero (Ext α) := ⟨.fin 0⟩
+instance [Add α] : Add (Ext α) := ⟨lift2 (· + ·)⟩
+instance [Sub α] : Sub (Ext α) := ⟨lift2 (· - ·)⟩
+instance [Mul α] : Mul (Ext α) := ⟨lift2 (· * ·)⟩
+end Ext
+
 end HcipyVerif.Mirror
